@@ -44,6 +44,7 @@ type Fault struct {
 full-lt / full-eq / full-2   cache limit below one body / exactly one body / two bodies, cache pre-filled
 budget-0 / budget-1          memory_budget_percent 0 / 1
 gone-before-304              entry deleted between the stale lookup and the origin's 304
+gone-after-renewal           entry deleted between the renewal after the origin's 304 and the lookup of the renewed entry (hook H8)
 gone-at-handover             entry deleted at the coalesced hand-over (3 concurrent clients)
 gone-before-respond          entry deleted between lookup and response write
 replaced-before-respond      entry overwritten between lookup and response write
@@ -83,7 +84,7 @@ var sub = ev.Register("cache-faults",
 			opts.MemBudget = -1
 		case "budget-1":
 			opts.MemBudget = 1
-		case "gone-before-304":
+		case "gone-before-304", "gone-after-renewal":
 			v.Headers = nil
 			lifetime = 60 * time.Millisecond
 		case "janitor-1ms":
@@ -161,6 +162,21 @@ var sub = ev.Register("cache-faults",
 			time.Sleep(90 * time.Millisecond)
 			verifhook.Set(nil)
 			site.Gate = learnKeyFromCache
+		case "gone-after-renewal":
+			// the origin confirmed the stale entry (304), its lifetime was renewed - and before the renewed entry is
+			// looked up for the answer it is gone (evicted by a store of another key, swept, deleted)
+			get("prime", "/f")
+			time.Sleep(90 * time.Millisecond)
+			var once sync.Once
+			verifhook.Set(func(name string, args ...string) {
+				if name == "reval.afterRenew" && len(args) > 0 {
+					once.Do(func() {
+						if env.Proxy.VerifCache().Delete(cache.CacheKey{Hex: args[0]}) == nil {
+							fired = true
+						}
+					})
+				}
+			})
 		case "gone-at-handover":
 			concurrent = 3
 			var once sync.Once
@@ -340,6 +356,7 @@ var kinds = []struct {
 	{"budget-0", []string{"memory"}, []int{0}},
 	{"budget-1", []string{"memory"}, []int{0}},
 	{"gone-before-304", []string{"memory", "file"}, []int{0}},
+	{"gone-after-renewal", []string{"memory", "file"}, []int{0}},
 	{"gone-at-handover", []string{"memory", "file"}, []int{0}},
 	{"gone-before-respond", []string{"memory", "file"}, []int{0}},
 	{"replaced-before-respond", []string{"memory", "file"}, []int{0}},
